@@ -58,7 +58,18 @@ def directed(rng, ops):
     triple = [{"k": "protect", "a": r(), "b": 1, "c": r(), "uid": None},
               {"k": "reopen", "a": r(), "b": r(), "c": r(), "uid": None},
               {"k": rng.choice(["remove_ws", "remove_ws", "remove_parent"]), "a": r(), "b": r(), "c": 1 + 4 * r(), "uid": None}]
-    return ops[:at] + triple + ops[at:]
+    ops = ops[:at] + triple + ops[at:]
+    if rng.random() < 0.6:
+        # one data set becomes the only member of the first property group of its object and a member of the second, then a
+        # removal aims at it (through the workspace or the parent), followed by a copy of a survivor
+        a, b = r(), r()
+        quad = [{"k": "add_data", "a": a, "b": r(), "c": r(), "uid": None},
+                {"k": "pg_add", "a": a, "b": b, "c": 2, "uid": None}, {"k": "pg_add", "a": a, "b": b, "c": 3, "uid": None},
+                {"k": rng.choice(["remove_ws", "remove_parent"]), "a": r(), "b": r(), "c": 4, "uid": None},
+                {"k": "copy", "a": r(), "b": r(), "c": r(), "uid": None}]
+        at = rng.randrange(len(ops) // 2, len(ops) + 1)
+        ops = ops[:at] + quad + ops[at:]
+    return ops
 
 
 def run(ctx: Ctx):
